@@ -25,39 +25,47 @@ theorem K3_cube (x y z : ℝ) :
 def rodrigues (f g : ℝ) (x y z : ℝ) : Matrix (Fin 3) (Fin 3) ℝ :=
   1 + f • K3 x y z + g • (K3 x y z * K3 x y z)
 
+/-- the Rodrigues curve `u ↦ 1 + (sin uθ/θ) K + ((1−cos uθ)/θ²) K²` -/
+noncomputable def rodCurve (x y z θ u : ℝ) : Matrix (Fin 3) (Fin 3) ℝ :=
+  rodrigues (Real.sin (u*θ) / θ) ((1 - Real.cos (u*θ)) / (θ*θ)) x y z
+
+/-- it solves `Φ' = K Φ` entrywise (`θ² = ‖a‖²`, `θ ≠ 0`) -/
+theorem rodCurve_hasDerivAt (x y z θ : ℝ) (hθ : θ ≠ 0) (hn : θ * θ = x*x + y*y + z*z)
+    (t : ℝ) (i j : Fin 3) :
+    HasDerivAt (fun u => rodCurve x y z θ u i j) ((K3 x y z * rodCurve x y z θ t) i j) t := by
+  set K := K3 x y z with hK
+  have hl : HasDerivAt (fun u : ℝ => u * θ) θ t := by
+    simpa using (hasDerivAt_id t).mul_const θ
+  have hmul : K * rodCurve x y z θ t = K + (Real.sin (t*θ) / θ) • (K * K)
+      + ((1 - Real.cos (t*θ)) / (θ*θ)) • ((-(x*x + y*y + z*z)) • K) := by
+    simp only [rodCurve, rodrigues, mul_add, mul_one, Matrix.mul_smul, ← hK, hK ▸ K3_cube x y z]
+  rw [hmul]
+  have hd := (((hl.sin.div_const θ).mul_const (K i j)).add
+    (((hl.cos.const_sub 1).div_const (θ*θ)).mul_const ((K * K) i j))).const_add
+      ((1 : Matrix (Fin 3) (Fin 3) ℝ) i j)
+  have he : (fun u => rodCurve x y z θ u i j) = fun u => (1 : Matrix (Fin 3) (Fin 3) ℝ) i j +
+      (Real.sin (u*θ) / θ * K i j + (1 - Real.cos (u*θ)) / (θ*θ) * (K * K) i j) := by
+    funext u
+    simp only [rodCurve, rodrigues, ← hK, Matrix.add_apply, Matrix.smul_apply, smul_eq_mul]
+    ring
+  rw [he]
+  refine hd.congr_deriv ?_
+  simp only [Matrix.add_apply, Matrix.smul_apply, smul_eq_mul]
+  rw [← hn]
+  field_simp
+  ring
+
+theorem rodCurve_zero (x y z θ : ℝ) : rodCurve x y z θ 0 = 1 := by
+  simp [rodCurve, rodrigues]
+
 /-- Rodrigues' formula is the matrix exponential, `θ² = ‖a‖²`, `θ ≠ 0`. -/
 theorem rodrigues_eq_exp (x y z θ : ℝ) (hθ : θ ≠ 0) (hn : θ * θ = x*x + y*y + z*z) :
     rodrigues (Real.sin θ / θ) ((1 - Real.cos θ) / (θ * θ)) x y z
       = NormedSpace.exp (K3 x y z) := by
-  set K := K3 x y z with hK
-  let Φ : ℝ → Matrix (Fin 3) (Fin 3) ℝ := fun u =>
-    1 + (Real.sin (u*θ) / θ) • K + ((1 - Real.cos (u*θ)) / (θ*θ)) • (K * K)
-  have h := Matrix.eq_exp_of_entry_hasDerivAt_one K Φ
-    (by simp [Φ])
-    (by
-      intro t i j
-      have hl : HasDerivAt (fun u : ℝ => u * θ) θ t := by
-        simpa using (hasDerivAt_id t).mul_const θ
-      have hmul : K * Φ t = K + (Real.sin (t*θ) / θ) • (K * K)
-          + ((1 - Real.cos (t*θ)) / (θ*θ)) • ((-(x*x + y*y + z*z)) • K) := by
-        simp only [Φ, mul_add, mul_one, Matrix.mul_smul, hK, K3_cube]
-      rw [hmul]
-      have hd := (((hl.sin.div_const θ).mul_const (K i j)).add
-        (((hl.cos.const_sub 1).div_const (θ*θ)).mul_const ((K * K) i j))).const_add
-          ((1 : Matrix (Fin 3) (Fin 3) ℝ) i j)
-      have he : (fun u => Φ u i j) = fun u => (1 : Matrix (Fin 3) (Fin 3) ℝ) i j +
-          (Real.sin (u*θ) / θ * K i j + (1 - Real.cos (u*θ)) / (θ*θ) * (K * K) i j) := by
-        funext u
-        simp only [Φ, Matrix.add_apply, Matrix.smul_apply, smul_eq_mul]
-        ring
-      rw [he]
-      refine hd.congr_deriv ?_
-      simp only [Matrix.add_apply, Matrix.smul_apply, smul_eq_mul]
-      rw [← hn]
-      field_simp
-      ring)
+  have h := Matrix.eq_exp_of_entry_hasDerivAt_one (K3 x y z) (rodCurve x y z θ)
+    (rodCurve_zero x y z θ) (rodCurve_hasDerivAt x y z θ hθ hn)
   rw [← h]
-  simp [Φ, rodrigues, hK]
+  simp [rodCurve]
 
 /-- `K = 0` case (`a = 0`) -/
 theorem rodrigues_zero (f g : ℝ) : rodrigues f g 0 0 0 = NormedSpace.exp (K3 0 0 0) := by
